@@ -38,6 +38,10 @@ extern ssize_t mpt_history_push(MPT_STRUCT(history) *hist, size_t len, const voi
 		if (hist->info.state & 0x7) {
 			return mpt_logfile_push(&hist->info, len, src);
 		}
+		/* abandoned data message: finish started row */
+		if (len == 1 && !src) {
+			len = 0;
+		}
 		/* history data output */
 		ret = mpt_history_values(hist, len, src);
 		if (ret < 0) {
